@@ -392,7 +392,8 @@ func (g *layoutGen) render(spec []sNode) string {
 		case "AS":
 			src += n.name + g.ws() + ":=" + g.ws() + `"` + n.sval + `"` + g.hws() + g.nl()
 		case "AF":
-			src += n.name + g.ws() + ":=" + g.ws() + n.fn + g.ws() + g.renderArgs(n.args) + g.ws() + g.nl()
+			// a call ends at its `)`: the next statement (a comment, say) may follow on the same line (Doc: NextStmtOK)
+			src += n.name + g.ws() + ":=" + g.ws() + n.fn + g.ws() + g.renderArgs(n.args) + g.pick(g.ws()+g.nl(), g.ws()+g.nl(), g.hws(), "")
 		case "T":
 			if n.text != "" {
 				src += "#" + n.text + eol(n.text) + g.ws()
@@ -424,10 +425,8 @@ func (g *layoutGen) render(spec []sNode) string {
 					src += e
 				}
 			}
-			src += "}" + g.pick(g.nl(), g.nl()+g.nl(), "")
-			if !strings.HasSuffix(src, "\n") {
-				src += g.nl()
-			}
+			// after the closing brace the next statement may follow at once (Doc: anything but a brace)
+			src += "}" + g.pick(g.nl(), g.nl()+g.nl(), g.nl(), "", g.hws())
 		}
 	}
 	return src
